@@ -149,3 +149,14 @@ Section Codec.
     rewrite gunz_gz, dec_enc, E, (proj2 (digest_eqb_spec _ _) eq_refl). reflexivity.
   Qed.
 End Codec.
+
+(* Before the fix of tarDirectory, a directory added through a symbolic link was archived as
+   what filepath.Walk yields for a root that is a link: the single link entry.  No such
+   archive can be unpacked (the base directory is in the way), whatever the target. *)
+Theorem symlinked_root_prefix_refuted pre umask preserve repro tg mt :
+  forall f, extract pre umask preserve (entries pre repro [] (Link tg mt)) <> Ok f.
+Proof.
+  intro f. unfold extract, extract_prefix. simpl. unfold extract_entry. simpl.
+  rewrite strip_prefix_app. simpl.
+  destruct (link_ok (fs_init umask) [] tg); discriminate.
+Qed.
